@@ -1,14 +1,17 @@
 (** C01 — bridge between the correspondence and the property, for the ledger clause of
-    [prop_case]: if the model reproduces every dump of a history whose batches all come from one
-    valid chain ([run_case]), then on every dump of that history the reported balances are the
-    ground-truth ledger of the scanned blocks whenever no orphaned transaction is alive
-    ([chk_ledger], a conjunct of [prop_case]).  PARTIAL: the other conjuncts of [prop_case]
-    (tables against ground truth, the balance rule restated on the dump, the comparison with the
-    linear-scan wallet) and histories with forks are not bridged. *)
+    [prop_case], over the universe with position-dependent nullifiers and histories with forks:
+    if the model reproduces every outcome and every dump of a history ([run_case]) whose batches
+    come from the best chain current at that point of the history ([fork_hist]: between two
+    steps the best chain may be replaced by a valid chain that agrees with it up to a height at
+    or above everything scanned), then on every dump the reported balances are the ground-truth
+    ledger of the scanned blocks whenever no orphaned transaction is alive ([chk_ledger], a
+    conjunct of [prop_case]).  PARTIAL: the other conjuncts of [prop_case] (tables against ground
+    truth, the balance rule restated on the dump, the comparison with the linear-scan wallet) are
+    not bridged. *)
 From Coq Require Import Permutation.
 From V.Lib Require Import Base.
 From V.Gen Require Import C01Consts.
-From V.C01 Require Import Model Spec Proofs Tables Chain Complete Ledger Corr.
+From V.C01 Require Import Model Spec Proofs Tables Chain WProofs WTables WComplete WLedger Corr.
 Local Open Scope N_scope.
 
 (** * the ledger does not depend on the order of the scanned blocks *)
@@ -61,6 +64,10 @@ Qed.
 Section Bridge.
 Variable c : list block.
 Hypothesis Hv : valid_chain BIRTHDAY c.
+Variable U : list block.
+Hypothesis HcU : incl c U.
+Hypothesis HU : weak_universe U.
+Hypothesis HownV : own_versions c U.
 
 Definition rel (S : list block) (s : wstate) : Prop :=
   NoDup S /\ forall b, In b S <-> In b c /\ has_block (w_blocks s) (b_height b) = true.
@@ -135,7 +142,7 @@ Qed.
 
 (** * one dump *)
 
-Lemma ledger_of_dump S s d : inv c c s -> rel S s -> dump_matches s d = true -> chk_ledger S d = true.
+Lemma ledger_of_dump S s d : inv c U s -> rel S s -> dump_matches s d = true -> chk_ledger S d = true.
 Proof.
   intros I HR Hm. unfold dump_matches in Hm. rewrite !andb_true_iff in Hm.
   destruct Hm as [[[[[[[_ Htx] _] _] _] Htip] _] Hbal].
@@ -145,7 +152,7 @@ Proof.
   apply andb_true_iff in Hbal. destruct Hbal as [Ht Hu]. apply N.eqb_eq in Ht, Hu.
   destruct (live_orphan (tp + 1) d) eqn:El; [reflexivity|]. cbn [orb]. apply N.eqb_eq.
   rewrite <- Ht, <- Hu, (rel_ledger S s a p HR).
-  apply (balance_ledger_core BIRTHDAY c Hv c (incl_refl c) (valid_chain_universe BIRTHDAY c Hv) s I tp Et).
+  apply (balance_ledger_core BIRTHDAY c Hv U HcU HU HownV s I tp Et).
   apply orphans_dead_live.
   intros r Hr Hnone.
   unfold set_eqb in Htx. rewrite !andb_true_iff in Htx. destruct Htx as [[_ Hsub] _].
@@ -184,49 +191,63 @@ Proof.
     apply andb_true_iff. split; [tauto|]. apply IH. rewrite E. assumption.
 Qed.
 
-Definition steps_on (l : list stepc) : Prop := forall bs r d, In (SScan bs r d) l -> incl bs c.
+(** what one step does to the specification's set of scanned blocks, and its dump *)
+Definition next_S (S : list block) (st : stepc) : list block :=
+  match st with
+  | SScan bs r _ => match r with Ok _ => spec_scan S bs | _ => S end
+  | STip _ _ _ => S
+  | STrunc _ r _ => match r with Ok h => spec_trunc S h | _ => S end
+  end.
+Definition st_dump (st : stepc) : dump := match st with SScan _ _ d | STip _ _ d | STrunc _ _ d => d end.
 
-Lemma bridge_steps : forall l S s,
-  steps_on l -> inv c c s -> rel S s -> run_steps s l = true -> ledger_steps S l = true.
+Lemma ledger_steps_cons S st l : ledger_steps S (st :: l) = chk_ledger (next_S S st) (st_dump st) && ledger_steps (next_S S st) l.
+Proof. destruct st; reflexivity. Qed.
+
+(** one step of a history on the current chain *)
+Lemma step_bridge S s st l :
+  (forall bs r d, st = SScan bs r d -> incl bs c) ->
+  inv c U s -> rel S s -> run_steps s (st :: l) = true ->
+  chk_ledger (next_S S st) (st_dump st) = true
+  /\ exists s', inv c U s' /\ rel (next_S S st) s' /\ run_steps s' l = true.
 Proof.
-  induction l as [|st l IH]; intros S s Hon I HR Hrun; [reflexivity|].
-  assert (Hon' : steps_on l) by (intros bs r d Hin; eapply Hon; right; exact Hin).
-  destruct st as [bs r d | h r d | req r d].
-  - assert (Hbs : incl bs c) by (eapply Hon; left; reflexivity).
-    cbn [ledger_steps].
-    assert (Hsame : forall s', dump_matches s' d && run_steps s' l = true -> inv c c s' ->
-              rel (match r with Ok _ => spec_scan S bs | _ => S end) s' ->
-              chk_ledger (match r with Ok _ => spec_scan S bs | _ => S end) d
-              && ledger_steps (match r with Ok _ => spec_scan S bs | _ => S end) l = true).
-    { intros s' H I' R'. apply andb_true_iff in H. destruct H as [Hd Hl]. apply andb_true_iff. split.
-      - eapply ledger_of_dump; eauto.
-      - eapply IH; eauto. }
+  intros Hon I HR Hrun.
+  assert (Hfin : forall s' d S', dump_matches s' d && run_steps s' l = true -> inv c U s' -> rel S' s' ->
+            chk_ledger S' d = true /\ exists s'', inv c U s'' /\ rel S' s'' /\ run_steps s'' l = true).
+  { intros s' d S' H I' R'. apply andb_true_iff in H. destruct H as [Hd Hl]. split; [eapply ledger_of_dump; eauto|]. exists s'. auto. }
+  destruct st as [bs r d | h r d | req r d]; cbn [next_S st_dump].
+  - assert (Hbs : incl bs c) by (eapply Hon; reflexivity).
     assert (Hgen : same_res (scan BIRTHDAY s bs) r
                    && (dump_matches (match scan BIRTHDAY s bs with Ok s' => s' | _ => s end) d
                        && run_steps (match scan BIRTHDAY s bs with Ok s' => s' | _ => s end) l) = true ->
-              chk_ledger (match r with Ok _ => spec_scan S bs | _ => S end) d
-              && ledger_steps (match r with Ok _ => spec_scan S bs | _ => S end) l = true).
+              chk_ledger (match r with Ok _ => spec_scan S bs | _ => S end) d = true
+              /\ exists s'', inv c U s'' /\ rel (match r with Ok _ => spec_scan S bs | _ => S end) s'' /\ run_steps s'' l = true).
     { intros H. apply andb_true_iff in H. destruct H as [Hres Hrest].
       destruct (scan BIRTHDAY s bs) as [s1|e1|] eqn:Es; destruct r as [u | e2 |]; cbn [same_res] in Hres; try discriminate.
-      - apply (Hsame s1); [assumption | eapply (scan_inv BIRTHDAY c Hv c (incl_refl c) (valid_chain_universe BIRTHDAY c Hv)); eauto | eapply rel_scan; eauto].
-      - apply (Hsame s); assumption.
-      - apply (Hsame s); assumption. }
+      - apply (Hfin s1); [assumption | eapply (scan_inv BIRTHDAY c Hv U HcU HU HownV); eauto | eapply rel_scan; eauto].
+      - apply (Hfin s); assumption.
+      - apply (Hfin s); assumption. }
     destruct r as [u | e |]; [exact (Hgen Hrun) | | exact (Hgen Hrun)].
     destruct e; try exact (Hgen Hrun).
-    cbn [run_steps] in Hrun. apply (Hsame s); assumption.
-  - cbn [run_steps ledger_steps] in *. rewrite !andb_true_iff in Hrun. destruct Hrun as [[_ Hd] Hl].
-    apply andb_true_iff. split.
-    + eapply ledger_of_dump; [apply (update_tip_inv BIRTHDAY c c); eassumption | apply rel_tip; eassumption | exact Hd].
-    + eapply IH; [assumption | apply (update_tip_inv BIRTHDAY c c); eassumption | apply rel_tip; eassumption | exact Hl].
-  - cbn [run_steps ledger_steps] in *. apply andb_true_iff in Hrun. destruct Hrun as [Hd Hl].
-    destruct r as [h | e |]; apply andb_true_iff; split;
-      try (eapply ledger_of_dump; eauto using truncate_inv, rel_trunc; fail);
-      try (eapply IH; eauto using truncate_inv, rel_trunc; fail).
-    + eapply ledger_of_dump; [apply (truncate_inv BIRTHDAY c Hv c); eassumption | apply rel_trunc; eassumption | exact Hd].
-    + eapply IH; [assumption | apply (truncate_inv BIRTHDAY c Hv c); eassumption | apply rel_trunc; eassumption | exact Hl].
+    cbn [run_steps] in Hrun. apply (Hfin s); assumption.
+  - cbn [run_steps] in Hrun. rewrite !andb_true_iff in Hrun. destruct Hrun as [[_ Hd] Hl].
+    apply (Hfin (update_tip BIRTHDAY s h)); [rewrite Hd, Hl; reflexivity | apply (update_tip_inv BIRTHDAY c U); assumption | apply rel_tip; assumption].
+  - cbn [run_steps] in Hrun.
+    destruct r as [h | e |]; (apply (Hfin _ _ _ Hrun); [try (apply (truncate_inv BIRTHDAY c Hv U)); assumption | try apply rel_trunc; assumption]).
 Qed.
 
 End Bridge.
+
+(** * Single chain *)
+
+Lemma bridge_steps c (Hv : valid_chain BIRTHDAY c) U (HcU : incl c U) (HU : weak_universe U) (Hown : own_versions c U) : forall l S s,
+  (forall bs r d, In (SScan bs r d) l -> incl bs c) -> inv c U s -> rel c S s -> run_steps s l = true -> ledger_steps S l = true.
+Proof.
+  induction l as [|st l IH]; intros S s Hon I HR Hrun; [reflexivity|].
+  rewrite ledger_steps_cons.
+  destruct (step_bridge c Hv U HcU HU Hown S s st l) as [Hc [s' [I' [R' Hl]]]]; auto.
+  { intros bs r d ->. eapply Hon. left. reflexivity. }
+  rewrite Hc. cbn [andb]. eapply IH; eauto. intros bs r d Hin. eapply Hon. right. exact Hin.
+Qed.
 
 Lemma bridge_ledger_lemma :
   forall (c : list block) (n : N) (steps : list stepc) (lin : option dump),
@@ -236,6 +257,59 @@ Lemma bridge_ledger_lemma :
     ledger_steps [] steps = true.
 Proof.
   intros c n steps lin Hv Hon Hrun. cbn [run_case] in Hrun.
-  apply (bridge_steps c Hv steps [] init Hon (init_inv c c)); [|assumption].
+  apply (bridge_steps c Hv c (incl_refl c) (chain_weak BIRTHDAY c Hv) (chain_own BIRTHDAY c Hv) steps [] init Hon (init_inv c c)); [|assumption].
+  split; [constructor|]. intros b. cbn. split; [intros [] | intros [_ H]; discriminate].
+Qed.
+
+(** * Histories with forks
+
+    [fork_hist U c S steps]: the steps are executed with [c] the best chain at the start and
+    [S] the blocks scanned so far; between two steps the best chain may be replaced by a valid
+    chain that agrees with it up to a height at or above everything scanned. *)
+Inductive fork_hist (U : list block) : list block -> list block -> list stepc -> Prop :=
+| fh_nil c S : fork_hist U c S []
+| fh_step c S st l :
+    (forall bs r d, st = SScan bs r d -> incl bs c) -> fork_hist U c (next_S S st) l -> fork_hist U c S (st :: l)
+| fh_switch c c' S h l :
+    valid_chain BIRTHDAY c' -> incl c' U -> own_versions c' U -> agree c c' h ->
+    (forall b, In b S -> b_height b <= h) -> fork_hist U c' S l -> fork_hist U c S l.
+
+Lemma rel_switch c c' U S s h :
+  valid_chain BIRTHDAY c -> inv c U s -> rel c S s -> agree c c' h -> (forall b, In b S -> b_height b <= h) ->
+  (forall m, Qof (w_blocks s) m -> m <= h) /\ rel c' S s.
+Proof.
+  intros Hv I [Hnd Hmem] Hag Hle.
+  assert (Hq : forall m, Qof (w_blocks s) m -> m <= h).
+  { intros m Hm. apply has_block_In in Hm. destruct Hm as [x Hx].
+    destruct (iv_sound _ _ _ I) as [B1 _ _ _ _]. rewrite Forall_forall in B1. destruct (B1 _ Hx) as [b0 [Hb0 [Hh _]]]. cbn [fst] in Hh.
+    rewrite <- Hh. apply Hle. apply Hmem. split; [assumption|]. rewrite Hh. apply has_block_In. exists x. assumption. }
+  split; [exact Hq|]. split; [assumption|]. intros b. rewrite Hmem. split.
+  - intros [Hb Hhas]. split; [|assumption]. apply (Hag b); [apply Hq; assumption | assumption].
+  - intros [Hb Hhas]. split; [|assumption]. apply (Hag b); [apply Hq; assumption | assumption].
+Qed.
+
+Lemma bridge_forks_steps U (HU : weak_universe U) : forall c S l,
+  fork_hist U c S l ->
+  forall s, valid_chain BIRTHDAY c -> incl c U -> own_versions c U ->
+  inv c U s -> rel c S s -> run_steps s l = true -> ledger_steps S l = true.
+Proof.
+  intros c S l H. induction H as [c S | c S st l Hon H IH | c c' S h l Hv' Hin' Hown' Hag Hle H IH]; intros s Hv Hin Hown I HR Hrun.
+  - reflexivity.
+  - rewrite ledger_steps_cons.
+    destruct (step_bridge c Hv U Hin HU Hown S s st l Hon I HR Hrun) as [Hc [s' [I' [R' Hl]]]].
+    rewrite Hc. cbn [andb]. eapply IH; eauto.
+  - destruct (rel_switch c c' U S s h Hv I HR Hag Hle) as [Hq R'].
+    eapply IH; eauto. eapply (switch_inv BIRTHDAY U c c' s h); eauto.
+Qed.
+
+Lemma bridge_forks_lemma :
+  forall (U c : list block) (n : N) (steps : list stepc) (lin : option dump),
+    weak_universe U -> valid_chain BIRTHDAY c -> incl c U -> own_versions c U ->
+    fork_hist U c [] steps ->
+    run_case (Hist n steps lin) = true ->
+    ledger_steps [] steps = true.
+Proof.
+  intros U c n steps lin HU Hv Hin Hown Hf Hrun. cbn [run_case] in Hrun.
+  apply (bridge_forks_steps U HU c [] steps Hf init Hv Hin Hown (init_inv c U)); [|assumption].
   split; [constructor|]. intros b. cbn. split; [intros [] | intros [_ H]; discriminate].
 Qed.
